@@ -26,6 +26,12 @@ Excluded points, each run on the real code by `harness/c15.py` (distribution key
                                              (or its `assert not math.isinf` fails)
 * decreasing rtimes                        ⇒ repair produces negative durations
 * negative last duration, jumpPosition set ⇒ repair runs, renderer: "interpolation length is longer"
+* ROUNDED TIMELINES WITH A SHORT BLOCK (inside the property's quantifier, recorded finding
+  `rounded-short-block-collapse`): every `…_meets_hypotheses` theorem below needs exact durations
+  longer than the rounding unit (`ExactValid.long`: `10^-k` for nearest, `2·10^-k` for floor / ceil /
+  mixed).  A shorter last block can round onto the object's end; then the repair raises `ValueError`:
+  `excluded_rounded_short_block` (k = 2: (0, 0.9951), (0.9951, 0.0098), object 1.0049), general form
+  `fix_raises_when_last_block_outside_object` / `fix_raises_rounded` (`Proofs/C15Raise.lean`).
 
 Further sections:
 * the deprecated reader option (`fix_blockFormat_durations`, duration pass only): `fixDurationsOnly_spec`
@@ -40,6 +46,7 @@ Further sections:
 -/
 import Earverif.Proofs.C15
 import Earverif.Proofs.C15Doc
+import Earverif.Proofs.C15Raise
 
 set_option linter.unusedSimpArgs false
 
@@ -766,6 +773,69 @@ theorem excluded_start_at_object_end :
     fixTimings [⟨none, some (q 1 2)⟩] [ob (some 0) (some (q 1 2)), ob (some (q 1 2)) (some (q 1 2))]
       = .error .valueError := by decide +kernel
 
+/-! ### Rounded timelines with a block not longer than the rounding unit: the repair raises
+
+`ExactValid.long` (`e < b.d` for every block; `e = 10^-k` for nearest, `2·10^-k` for floor / ceil /
+mixed) cannot be dropped from any `…_meets_hypotheses` theorem. -/
+
+/-- the exact timeline of `excluded_rounded_short_block`: blocks (0, 0.9951), (0.9951, 0.0098) in an
+object of duration 1.0049 -/
+def shortExact : List Block := [ob (some 0) (some (q 9951 10000)), ob (some (q 9951 10000)) (some (q 98 10000))]
+def shortObjs : List Obj := [⟨none, some (q 10049 10000)⟩]
+
+/-- **excluded_rounded_short_block** (recorded finding `rounded-short-block-collapse`).  A valid exact
+timeline — all timed, contiguous, inside its object, durations positive, repaired without any change
+by the model — whose last duration 0.0098 is not longer than the rounding unit 0.01.  Written with two
+decimals by Python's `round` it becomes (0, 1.00), (1.00, 0.01) in an object of duration 1.00: the
+last block starts at the object's end and `fix_blockFormat_timings` raises `ValueError` ("tried to
+advance end … before the block start").  Run on the real code on every check
+(`harness/c15.py: witness_case`). -/
+theorem excluded_rounded_short_block :
+    fixTimings shortObjs shortExact = .ok (shortExact, []) ∧
+    accepted ⟨none, some (q 10049 10000)⟩ shortExact = .ok ∧
+    shortExact.map (roundBlock (roundHalfEven 2)) = [ob (some 0) (some 1), ob (some 1) (some (q 1 100))] ∧
+    shortObjs.map (roundObj (roundHalfEven 2)) = [⟨none, some 1⟩] ∧
+    fixTimings (shortObjs.map (roundObj (roundHalfEven 2))) (shortExact.map (roundBlock (roundHalfEven 2)))
+      = .error .valueError := by decide +kernel
+
+/-- the exact timeline meets every clause of `ExactValid (10^-2)` except `long`: its last duration
+0.0098 is positive but not above 0.01 -/
+theorem shortExact_valid_but_short :
+    AllTimed shortExact ∧ Contig shortExact ∧ (∀ b ∈ shortExact, 0 < b.d) ∧
+    (∀ o ∈ shortObjs, ∀ D, o.duration = some D → Within D shortExact) ∧
+    ¬ (∀ b ∈ shortExact, ((10 : Rat) ^ 2)⁻¹ < b.d) := by
+  refine ⟨?_, ?_, ?_, ?_, ?_⟩
+  · intro b hb; simp [shortExact, ob] at hb; rcases hb with rfl | rfl <;> simp [Timed]
+  · refine ⟨?_, trivial⟩; simp [shortExact, ob, Block.r, Block.d]; decide +kernel
+  · intro b hb; simp [shortExact, ob] at hb; rcases hb with rfl | rfl <;> simp [Block.d] <;> decide +kernel
+  · intro o ho D hD b hb _
+    simp [shortObjs] at ho; subst ho; simp at hD; subst hD
+    simp [shortExact, ob] at hb; rcases hb with rfl | rfl <;> simp [Block.r, Block.d] <;> decide +kernel
+  · intro h
+    have := h (ob (some (q 9951 10000)) (some (q 98 10000))) (by simp [shortExact])
+    revert this; simp [ob, Block.d]; decide +kernel
+
+/-- **fix_raises_rounded.**  The general form of the finding, for any way `rnd` of writing the
+times: if the written last block starts at or after the written end of some object referencing the
+channel and its written duration is positive, the repair of the written document raises `ValueError`
+(instance of `fix_raises_when_last_block_outside_object`). -/
+theorem fix_raises_rounded (rnd : Rat → Rat) (objs : List Obj) (bs : List Block) (ht : AllTimed bs)
+    (o : Obj) (ho : o ∈ objs) (D : Rat) (hD : o.duration = some D)
+    (hl : LastOutside (rnd D) (bs.map (roundBlock rnd))) :
+    fixTimings (objs.map (roundObj rnd)) (bs.map (roundBlock rnd)) = .error .valueError := by
+  refine fix_raises_when_last_block_outside_object _ _ ?_ (roundObj rnd o) (List.mem_map.2 ⟨o, ho, rfl⟩)
+    (rnd D) (by simp [roundObj, hD]) hl
+  intro x hx
+  simp only [List.mem_map] at hx
+  obtain ⟨b, hb, rfl⟩ := hx
+  exact roundBlock_timed (ht b hb)
+
+/-- non-vacuity: the hypotheses of `fix_raises_rounded` hold on the witness -/
+example : AllTimed shortExact ∧ (⟨none, some (q 10049 10000)⟩ : Obj) ∈ shortObjs ∧
+    LastOutside (roundHalfEven 2 (q 10049 10000)) (shortExact.map (roundBlock (roundHalfEven 2))) := by
+  refine ⟨shortExact_valid_but_short.1, by simp [shortObjs], ?_⟩
+  simp [shortExact, ob, roundBlock, LastOutside, Block.r, Block.d]; decide +kernel
+
 /-- Negative last duration with a jumpPosition: the repair succeeds and changes nothing, the
 interpreter rejects ("specified interpolation length is longer than block"). -/
 theorem excluded_negative_last_duration :
@@ -863,8 +933,10 @@ structure DocHyp (pairs : List (Obj × Option (List Nat))) (t : Table) : Prop wh
 /-- **doc_fix_post.**  `fix_blockFormat_timings(adm)` on a document meeting `DocHyp` does not raise
 and leaves every audioChannelFormat `c` in the state `Post` describes (rtimes unchanged, contiguous,
 interpolation lengths inside their blocks, blocks inside every audioObject whose allocation contains
-`c`, accepted by the renderer for each of them, stable) — `objs` is no longer an input but computed
-by the model of `ObjectChannelMatcher` / the pack allocator. -/
+`c`, stable; and — `Post.accept` — accepted by the renderer's timing checks for each of these
+audioObjects PROVIDED the channel also meets `HypAccept` (last duration not negative), which is not
+part of `DocHyp`: `doc_fix_accepted` states that clause with its hypothesis) — `objs` is no longer an
+input but computed by the model of `ObjectChannelMatcher` / the pack allocator. -/
 theorem doc_fix_post (pairs : List (Obj × Option (List Nat))) (t : Table) (h : DocHyp pairs t) :
     ∃ t' ws, docFix pairs t = .ok (t', ws) ∧ t'.length = t.length ∧
       ∀ c, c < t.length → Post (objsFor pairs c) (Table.get t c) (Table.get t' c) := by
@@ -875,6 +947,17 @@ theorem doc_fix_post (pairs : List (Obj × Option (List Nat))) (t : Table) (h : 
   intro c hc
   obtain ⟨ws, hw⟩ := docFix_channel pairs t r hr c
   exact post_of_ok (h.chan c hc) hw
+
+/-- **doc_fix_accepted.**  The acceptance clause for whole documents, with its extra hypothesis made
+explicit: if every audioChannelFormat additionally meets `HypAccept` (last duration ≥ 0; rounded
+timelines do: `…_meets_hypotheses`), then after the repair the renderer's timing checks accept every
+audioChannelFormat for every audioObject whose allocation contains it. -/
+theorem doc_fix_accepted (pairs : List (Obj × Option (List Nat))) (t : Table) (h : DocHyp pairs t)
+    (ha : ∀ c, c < t.length → HypAccept (objsFor pairs c) (Table.get t c)) :
+    ∃ t' ws, docFix pairs t = .ok (t', ws) ∧
+      ∀ c, c < t.length → ∀ o ∈ objsFor pairs c, accepted o (Table.get t' c) = .ok := by
+  obtain ⟨t', ws, h1, _, h3⟩ := doc_fix_post pairs t h
+  exact ⟨t', ws, h1, fun c hc => (h3 c hc).accept (ha c hc)⟩
 
 /-- **doc_fix_idempotent_silent.**  Repairing the repaired document again returns it unchanged and
 warns about nothing. -/
@@ -943,6 +1026,43 @@ example : DocHyp exDoc.pairs exDoc.channels := by
     · intro o ho D hD; simp at ho
       rcases ho with rfl | rfl <;> simp at hD <;> subst hD <;>
         simp [exDoc, Table.get, tb, LastBelow, Block.r] <;> decide +kernel
+
+/-- a document whose blocks have jumpPosition and interpolationLength: the first block is expanded
+(0.33 → 0.34) and its interpolationLength 0.5 contracted to it; the last block (0.34 + 0.67) is
+advanced to the end of its audioObject (start 2, duration 1) together with its interpolationLength -/
+private def jb (r d il : Rat) : Block := ⟨some r, some d, true, true, some il⟩
+private def exDoc2 : Doc :=
+  ⟨[⟨some 2, some 1, [0], [some 0]⟩], [⟨3, [0], []⟩], [⟨0, 0⟩],
+   [[jb 0 (mkRat 33 100) (mkRat 1 2), jb (mkRat 34 100) (mkRat 67 100) (mkRat 67 100)]]⟩
+
+example : exDoc2.fix = .ok ([[jb 0 (mkRat 34 100) (mkRat 34 100), jb (mkRat 34 100) (mkRat 66 100) (mkRat 66 100)]],
+    [⟨0, ⟨.expanded, 0⟩⟩, ⟨0, ⟨.ilContracted, 0⟩⟩, ⟨0, ⟨.endAdvanced, 1⟩⟩, ⟨0, ⟨.endAdvancedIl, 1⟩⟩]) ∧
+    accepted ⟨some 2, some 1⟩ (Table.get exDoc2.channels 0) = .interpTooLong ∧
+    accepted ⟨some 2, some 1⟩
+      [jb 0 (mkRat 34 100) (mkRat 34 100), jb (mkRat 34 100) (mkRat 66 100) (mkRat 66 100)] = .ok := by
+  decide +kernel
+
+/-- it meets `DocHyp` and the extra hypothesis of `doc_fix_accepted` -/
+example : DocHyp exDoc2.pairs exDoc2.channels ∧
+    ∀ c, c < exDoc2.channels.length → HypAccept (objsFor exDoc2.pairs c) (Table.get exDoc2.channels c) := by
+  have e : objsFor exDoc2.pairs 0 = [⟨some 2, some 1⟩] := by decide +kernel
+  refine ⟨⟨by decide +kernel, ?_⟩, ?_⟩
+  · intro c hc
+    have hc' : c = 0 := by simp [exDoc2] at hc; omega
+    subst hc'
+    rw [e]
+    refine Hyp.timed ?_ ?_ ?_
+    · intro b hb; simp [exDoc2, Table.get, jb] at hb; rcases hb with rfl | rfl <;> simp [Timed]
+    · refine ⟨?_, trivial⟩; simp [exDoc2, Table.get, jb, Block.r]; decide +kernel
+    · intro o ho D hD; simp at ho; subst ho; simp at hD; subst hD
+      simp [exDoc2, Table.get, jb, LastBelow, Block.r]; decide +kernel
+  · intro c hc
+    have hc' : c = 0 := by simp [exDoc2] at hc; omega
+    subst hc'
+    refine ⟨?_, ?_⟩
+    · simp [exDoc2, Table.get, jb, LastNonneg, Block.d]; decide +kernel
+    · intro ⟨b, hb, hu⟩
+      simp [exDoc2, Table.get, jb] at hb; rcases hb with rfl | rfl <;> simp [Untimed] at hu
 
 /-- **Excluded point of `DocHyp.matcher`.**  An audioObject *with* a duration whose references are
 inconsistent (one audioTrackUID for a two-channel pack): `AdmFormatRefError` escapes from
